@@ -584,13 +584,16 @@ func diffSnap(a, b map[string]string) []string {
 }
 
 // dbChanged reports whether the logical content of the queue db differs from the seeded template.
-func (w *worker) dbChanged() (bool, error) {
+func (w *worker) dbChanged(wasMissing bool) (bool, error) {
 	b, err := os.ReadFile(w.dbPath)
 	if err != nil {
 		if os.IsNotExist(err) {
-			return true, nil
+			return !wasMissing, nil
 		}
 		return false, err
+	}
+	if wasMissing {
+		return true, nil // a queue db was created
 	}
 	_, e1 := os.Stat(w.dbPath + "-wal")
 	_, e2 := os.Stat(w.dbPath + "-shm")
@@ -668,12 +671,13 @@ type sessionResult struct {
 	AuditRaw  string
 	Audit     []map[string]any
 	AuditBad  int // audit lines that are not JSON objects
+	Calls     []string // per tools/call: "ok" | "isError" | "rpc-error"
 }
 
 func (s *sessionResult) refused() bool { return s.RPCError || s.IsError }
 
 // runSession drives initialize, notifications/initialized, tools/list and one tools/call through Serve.
-func (w *worker) runSession(c gateCfg, tool string, args map[string]any, omitArgs bool) *sessionResult {
+func (w *worker) runSession(c gateCfg, tool string, args map[string]any, omitArgs bool, repeat int) *sessionResult {
 	var in, out, audit bytes.Buffer
 	writeFrame(&in, map[string]any{"jsonrpc": "2.0", "id": 1, "method": "initialize", "params": map[string]any{
 		"protocolVersion": "2024-11-05", "capabilities": map[string]any{}, "clientInfo": map[string]any{"name": "verif-c20", "version": "0"}}})
@@ -683,7 +687,12 @@ func (w *worker) runSession(c gateCfg, tool string, args map[string]any, omitArg
 	if !omitArgs {
 		params["arguments"] = args
 	}
-	writeFrame(&in, map[string]any{"jsonrpc": "2.0", "id": 3, "method": "tools/call", "params": params})
+	if repeat < 1 {
+		repeat = 1
+	}
+	for i := 0; i < repeat; i++ {
+		writeFrame(&in, map[string]any{"jsonrpc": "2.0", "id": 3 + i, "method": "tools/call", "params": params})
+	}
 
 	opts := []mcp.Option{
 		mcp.WithPrincipal(c.Principal),
@@ -740,8 +749,8 @@ func (w *worker) runSession(c gateCfg, tool string, args map[string]any, omitArg
 		}
 		byID[int(id)] = f
 	}
-	if len(byID) != 3 || byID[1] == nil || byID[2] == nil || byID[3] == nil {
-		res.ProtoErr = fmt.Sprintf("expected responses for ids 1,2,3, got %d frames", len(frames))
+	if len(byID) != 2+repeat || byID[1] == nil || byID[2] == nil {
+		res.ProtoErr = fmt.Sprintf("expected responses for ids 1..%d, got %d frames", 2+repeat, len(frames))
 		return res
 	}
 	if init, _ := byID[1]["result"].(map[string]any); init == nil || init["protocolVersion"] == nil {
@@ -768,19 +777,32 @@ func (w *worker) runSession(c gateCfg, tool string, args map[string]any, omitArg
 			}
 		}
 	}
-	call := byID[3]
-	if call["error"] != nil {
-		res.RPCError = true
-		return res
+	// refused() is true only when every call of the session was refused
+	res.RPCError, res.IsError = false, false
+	refusedAll := true
+	for i := 0; i < repeat; i++ {
+		call := byID[3+i]
+		if call == nil {
+			res.ProtoErr = fmt.Sprintf("no response for id %d", 3+i)
+			return res
+		}
+		if call["error"] != nil {
+			res.Calls = append(res.Calls, "rpc-error")
+			continue
+		}
+		cr, _ := call["result"].(map[string]any)
+		if cr == nil {
+			res.ProtoErr = "tools/call returned neither result nor error"
+			return res
+		}
+		if v, ok := cr["isError"].(bool); ok && v {
+			res.Calls = append(res.Calls, "isError")
+			continue
+		}
+		res.Calls = append(res.Calls, "ok")
+		refusedAll = false
+		res.Structured, _ = cr["structuredContent"].(map[string]any)
 	}
-	cr, _ := call["result"].(map[string]any)
-	if cr == nil {
-		res.ProtoErr = "tools/call returned neither result nor error"
-		return res
-	}
-	if v, ok := cr["isError"].(bool); ok && v {
-		res.IsError = true
-	}
-	res.Structured, _ = cr["structuredContent"].(map[string]any)
+	res.IsError = refusedAll
 	return res
 }
